@@ -27,6 +27,7 @@ CLAUSE = CLAUSE + (" In vbi_proxy_queue_allocate a count taken by walking the fr
 CLAUSE = CLAUSE + (" The assertion on a freshly captured frame admits line_count == max_lines (the buffer's capacity).")
 CLAUSE = CLAUSE + (" vbi_proxyd_send_sliced decides the message form from the client's own service set only; the message length "
                    "is taken from the header under readOff >= sizeof (header), the accumulated offset.")
+CLAUSE = CLAUSE + (' Requested services are OR-ed into the level they are requested at; after a successful vbi_proxyd_send_sliced every path releases the frame before the next client.')
 NOT_DECIDED = ("exactly-once / in-order delivery, timing, device open/close sequencing, that a stalled client loses only its own "
                "frames (schedule-dependent behaviour); the main loop's unlocked *reads* of its clients' cursors and queued frames "
                "(vbi_proxyd_send_sliced, _handle_client_sockets, _get_fd_set) are a formal data race with the acquisition thread's "
@@ -398,6 +399,13 @@ def _release(ctx, run, f):
     for i in sts:
         ats = atoms.atoms_at(f, i)
         ok = any(a.cmp_const("==", "PROXY_QUEUE_s.ref_count", 0) for a in ats)
+        if not ok:
+            # or the count is zero there by the interval analysis (`ref_count = 0` on the last-reference branch)
+            an = ctx.analysis(f)
+            st = an.state_before(i) if an is not None else None
+            nodes = [n_ for n_, e_ in enumerate(f.exprs) if e_["k"] == "mem" and e_["member"] == "ref_count" and e_.get("in") == "PROXY_QUEUE_s"]
+            if st is not None and nodes and all(an.eval(st, n_) == (0, 0) for n_ in nodes[:1]):
+                ok = True
         key = "RF-DOM:vbi_proxy_queue_release_sliced:free-at-zero"
         if ok:
             run.holds("RF-DOM", key, "a buffer is put on the free list only under ref_count == 0", ex.loc(f, i))
